@@ -49,7 +49,8 @@ PrefixOf(form) == CASE form = "id" -> <<105, 100, 58, 32>>      \* "id: "
                     [] OTHER       -> <<>>
 SuffixOf(sfx)  == IF sfx = 0 THEN <<>> ELSE <<32, 35, 48 + sfx>> \* " #1", " #2"
 
-IsBlank(l) == l.form \in {"blank", "ws"}
+\* "uws": a line made only of non-ASCII white space (U+3000, U+00A0): blank like any other white-space-only line
+IsBlank(l) == l.form \in {"blank", "ws", "uws"}
 
 \* the line with surrounding whitespace removed
 Trimmed(l) == IF IsBlank(l) THEN <<>> ELSE PrefixOf(l.form) \o l.key \o SuffixOf(l.sfx)
@@ -65,6 +66,11 @@ KeyOf(l, pat) ==
     [] pat = "group" -> IF l.form = "id" THEN Some(l.key) ELSE None
     [] pat = "plain" -> IF l.form = "kv" THEN Some(PrefixOf("kv") \o l.key) ELSE None
     [] pat = "gstar" -> IF l.form = "ide" THEN Some(l.key) ELSE IF l.form = "id" THEN Some(<<>>) ELSE None
+    \* "galt": regex (?:id: (?P<value>[^ ]+)|k=[^ ]+) -- the `value` group takes part in only one alternative: a line
+    \*         matching through the other one has no `value`, its key is the whole match (decided per line, not per regex)
+    \* "ganch": regex ^id: (?P<value>[^ ]+) -- anchored at the start of the RAW line: indented lines do not match
+    [] pat = "ganch" -> IF l.form = "id" /\ l.indent = 0 THEN Some(l.key) ELSE None
+    [] pat = "galt"  -> IF l.form = "id" THEN Some(l.key) ELSE IF l.form = "kv" THEN Some(PrefixOf("kv") \o l.key) ELSE None
 
 \* Numbers: the decimal spellings  -?[0-9]+(\.[0-9])?  with their value in tenths.  Anything else
 \* (exponents, inf, nan, a leading '+' or '.') is "not numeric" for the contract, i.e. gray.
